@@ -62,7 +62,14 @@ FINISH = dict(
          "last one; compared exactly with StorageFx.runHistoryFx; 'created' is decided at open time (absent, or another inode "
          "than the write left) and judged by Spec.C13.holdsFx on the file the post hooks see (and the final one when no post "
          "hook acts). Daemon with the archive hook: one account on two endpoints, a certificate good for a day: the account, "
-         "key and certificate files are re-created after the hook moved the old ones away.",
+         "key and certificate files are re-created after the hook moved the old ones away. "
+         "One NAME as user and as group: the names /etc/passwd and /etc/group both know with DIFFERENT numbers (found at "
+         "run time; none: counted name-clash:no-such-name) are in both owner lists of every generator above, and "
+         "(py/ext/c13x.py clash_part) fixed histories, each in a probe process of its own: user = group = NAME for key and "
+         "certificate (created, rewritten), NAME as user in an earlier write and as group in a later one and the reverse, "
+         "on one file and across the two files of a certificate (with an account file in between), two such names swapped; "
+         "the same by a process that is user NAME with group NAME as supplementary group; one configuration with the four "
+         "owner options = NAME; one daemon run.",
 )
 
 UMASKS = [0o000, 0o022, 0o027, 0o077, 0o777]
@@ -95,7 +102,9 @@ def owner_choices(w, ids):
     nums = [str(i) for i in ids]
     common = [None, None, None] + nums + ["0", "00042", "4294967295", "nosuchname-verif", "x123", "12ab",
                                          "", "99999999999", "4294967296"] + x13.ODD_OWNERS
-    return common + unames + unames, common + gnames + gnames
+    # names that are a user AND a group with different numbers (w["clash"], found in the databases): in both lists
+    clash = [n for n, _, _ in w.get("clash") or []]
+    return common + unames + unames + clash, common + gnames + gnames + clash
 
 
 def gen_case(rng, idx, w, users, groups, mode=None, ftype=None, as_prev=False):
@@ -531,11 +540,14 @@ def run(ctx):
         defaults = vlib.model([{"op": "storage_defaults"}])[0]
         ids = usable_ids(scratch, [1234, 65534, 100000, 2147483647, 4294967294])
         ctx.count("usable-numeric-ids:%d" % len(ids))
+        w["clash"] = x13.clash_names(w, lambda xs: usable_ids(scratch, xs)) if os.geteuid() == 0 else []
         if os.geteuid() != 0:
             ctx.notes.append("not running as root: only ownerless cases can be judged")
             ids = []
         users, groups = owner_choices(w, ids) if os.geteuid() == 0 else ([None], [None])
         rng = ctx.rng
+        # (first: its histories run in processes of their own, so a failing one is a replay that stands by itself)
+        x13.clash_part(ctx, sys.modules[__name__], w, defaults, os.path.join(scratch, "clash"), helper)
         cases = corpus_cases(0)
         if os.geteuid() != 0:
             cases = [c for c in cases if not c.get("prev") and not any(c.get(k) for k in OPTS if not k.endswith("mode"))]
